@@ -220,7 +220,9 @@ func convScalar(r *rand.Rand, t byte, finiteOnly bool) *Val {
 		if r.Intn(2) == 0 {
 			return randScalar(r, t, cfg)
 		}
-		alphabet := []string{"\"", "\\", "\n", "\t", "\x00", "\x1f", "\x7f", "/", "<", "é", " ", " ", "😀", "a", "b", " ", "\xff", "\xc3", "\xed\xa0\x80"}
+		alphabet := []string{"\"", "\\", "\n", "\t", "\x00", "\x1f", "\x7f", "/", "<", "é", " ", " ", "😀", "a", "b", " ", "\xff", "\xc3", "\xed\xa0\x80",
+			// code points at the boundaries of the UTF-8 length classes and of the surrogate gap, the JSON line separators
+			"\u0080", "\u07ff", "\u0800", "\u0fff", "\u1000", "\ud7ff", "\ue000", "\uffff", "\U00010000", "\U0010ffff", "\u2028", "\u2029"}
 		var l int
 		switch r.Intn(12) {
 		case 0, 1:
